@@ -176,6 +176,8 @@ func (s *Sim) apply(st Step) bool {
 		return s.stepPodEdit(st)
 	case "pvcterm":
 		return s.stepPVCTerm(st)
+	case "pvcgap":
+		return s.stepPVCGap(st)
 	case "kube":
 		return s.stepKubelet(st)
 	case "gc":
@@ -191,6 +193,22 @@ func (s *Sim) apply(st Step) bool {
 	case "listerfault":
 		return s.stepListerFault(st)
 	case "settle":
+		if st.A == 2 {
+			// kubelet and caches only: pods progress, events are delivered, no worker runs
+			stuck := map[string]int{}
+			for round := 0; round < 10; round++ {
+				ch := s.kubeletSettle(round, stuck)
+				for _, k := range cacheKinds {
+					for s.Deliver(k) {
+						ch = true
+					}
+				}
+				if !ch {
+					break
+				}
+			}
+			return true
+		}
 		return s.stepSettle(st.A == 1)
 	case "mktwin":
 		return s.stepMkTwin(st)
@@ -1203,6 +1221,41 @@ func (s *Sim) stepPVCTerm(st Step) bool {
 	}
 	s.count("user.pvcterm")
 	s.Store.markDeleting(KPVC, key(o.Namespace, o.Name), o, []string{"kubernetes.io/pvc-protection"})
+	return true
+}
+
+// pvcgap: the claim watch is down; the user, starting a replica over, deletes a
+// claim no pod uses any more; the watch comes back with a relist. The claim cache
+// is consistent with the API afterwards (the claim is in neither), whatever the
+// controller remembers of it.
+func (s *Sim) stepPVCGap(st Step) bool {
+	if s.inc == nil || len(s.ParkedWorkers()) > 0 {
+		// (not under a reconcile in flight: one that has already looked the claim up
+		// would rightly go on with what it saw)
+		return false
+	}
+	used := map[string]bool{}
+	for _, ky := range s.Store.Keys(KPod) {
+		p := s.Store.tables[KPod][ky].(*v1.Pod)
+		for _, vol := range p.Spec.Volumes {
+			if vol.PersistentVolumeClaim != nil {
+				used[key(p.Namespace, vol.PersistentVolumeClaim.ClaimName)] = true
+			}
+		}
+	}
+	var free []string
+	for _, ky := range s.Store.Keys(KPVC) {
+		if !used[ky] {
+			free = append(free, ky)
+		}
+	}
+	if len(free) == 0 {
+		return false
+	}
+	o := s.Store.tables[KPVC][free[abs(st.A)%len(free)]]
+	s.Store.Remove(KPVC, o.GetNamespace(), o.GetName())
+	s.count("user.pvcgap")
+	s.Relist(KPVC)
 	return true
 }
 
